@@ -1,2 +1,53 @@
+(* Statement pins for C18: each property theorem is re-checked against the statement recorded
+   here, so a theorem cannot be weakened in its own file without this file failing to compile. *)
 From BT Require Import Base.Util.
-From BT Require Properties.C18.
+From BT Require Model.FileView Model.Chunker Model.Indexer Properties.C18.
+
+Module PinC18.
+Import Model.FileView Model.Chunker Model.Indexer Properties.C18.
+Local Open Scope N_scope.
+Check (C18_view_translation : forall (file : list N) (a b : N) (ops : list op),
+  a <= b -> a <= Nlen file -> Nlen file < 2 ^ 63 ->
+  run_view file a b ops = run_view (range file a b) 0 (b - a) ops).
+Check (C18_view_eq_cursor : forall (file : list N) (a b : N) (ops : list op),
+  a <= b -> a <= Nlen file -> Nlen file < 2 ^ 63 ->
+  run_view file a b ops = cursor_run (range file a b) 0 ops).
+Check (C18_view_read_all : forall (file : list N) (a b bufsize : N) (v : view),
+  a <= b -> a <= Nlen file -> Nlen file < 2 ^ 63 -> 1 <= bufsize ->
+  view_new (Nlen file) a b = Ok v ->
+  exists fuel, read_all fuel file v bufsize = Ok (range file a b)).
+Check (C18_chunks_partition : forall (file : list N) (n : N), 1 <= n ->
+  exists cs, split_file_into_chunks_by_size file n = Ok cs /\
+             chain 0 cs (Nlen file) /\
+             Forall (fun ab => cut_ok file (fst ab)) cs /\
+             (file <> [] -> Forall (fun ab => fst ab < snd ab) cs)).
+Check (C18_chunks_lines : forall (file : list N) (n : N) (cs : list (N * N)),
+  split_file_into_chunks_by_size file n = Ok cs ->
+  concat (map (fun ab => split_lines (range file (fst ab) (snd ab))) cs) = split_lines file).
+Check (C18_chunks_line_stream : forall (file : list N) (n : N) (cs : list (N * N)),
+  split_file_into_chunks_by_size file n = Ok cs ->
+  concat (map (fun ab => line_stream (range file (fst ab) (snd ab))) cs) = line_stream file).
+Check (C18_index_grouped : forall (lim : nat) (f : file),
+  f <> [] -> Forall wf_line f -> grouped f ->
+  fsize f * fsize f < 2 ^ N.of_nat lim ->
+  index_chroms (S lim) f = Ok (Some (run_starts f))).
+Check (C18_index_grouped_100 : forall (f : file),
+  f <> [] -> Forall wf_line f -> grouped f -> fsize f < 2 ^ 49 ->
+  index_chroms depth_limit f = Ok (Some (run_starts f))).
+Check (C18_index_grouped_if_ok : forall (limit : nat) (f : file) r,
+  Forall (fun l => 1 <= snd l) f -> grouped f ->
+  index_chroms limit f = Ok r -> r = Some (run_starts f)).
+Check (C18_index_none_not_grouped : forall (limit : nat) (f : file),
+  Forall (fun l => 1 <= snd l) f -> index_chroms limit f = Ok None -> ~ grouped f).
+Check (C18_index_never_none : forall (limit : nat) (f : file),
+  Forall (fun l => 1 <= snd l) f -> index_chroms limit f <> Ok None).
+Check (C18_groupedb_iff : forall (f : file), groupedb f = true <-> grouped f).
+(* the reference notions the statements rest on, pinned as well *)
+Check (eq_refl : grouped = fun f : file =>
+  forall p a m b s, f = p ++ a :: m ++ b :: s -> fst a = fst b -> forall x, In x m -> fst x = fst a).
+Check (eq_refl : run_starts = fun f : file => dedup_chrom (entries 0 f)).
+Check (eq_refl : wf_line = fun l : line => fst l <> 0 /\ 1 <= snd l).
+Check (eq_refl : cut_ok = fun (file : list N) (p : N) =>
+  p = 0 \/ exists pre post, file = pre ++ NL :: post /\ p = Nlen pre + 1).
+Check (eq_refl : depth_limit = 100%nat).
+End PinC18.
